@@ -82,7 +82,9 @@ T = {
   "Page": 14, "X87FloatingPoint": 16, "AlignmentCheck": 17, "MachineCheck": 18, "SimdFloatingPoint": 19,
   "Virtualization": 20, "ControlProtection": 21, "HypervisorInjection": 28, "VmmCommunication": 29, "Security": 30},
  "PatMemoryType": {  # SDM vol.3 table 11-10
-  "StrongUncacheable": 0, "WriteCombining": 1, "WriteThrough": 4, "WriteProtected": 5, "WriteBack": 6, "Uncacheable": 7},
+  "StrongUncacheable": 0, "WriteCombining": 1, "WriteThrough": 4, "WriteProtected": 5, "WriteBack": 6, "Uncacheable": 7,
+  # power-on value of IA32_PAT (SDM vol.3 table 11-12): PA0..PA7 = WB WT UC- UC WB WT UC- UC, one byte each
+  "@Pat::DEFAULT": 0x0007040600070406},
  "PrivilegeLevel": {"Ring0": 0, "Ring1": 1, "Ring2": 2, "Ring3": 3},
  "BreakpointCondition": {"InstructionExecution": 0, "DataWrites": 1, "IoReadsWrites": 2, "DataReadsWrites": 3},  # SDM 17.2.4 R/W
  "BreakpointSize": {"Length1B": 0, "Length2B": 1, "Length8B": 2, "Length4B": 3},                                # SDM 17.2.4 LEN
